@@ -47,7 +47,13 @@ func (c *Ctx) pathOfD(v ssa.Value, d int) APath {
 		p.Suffix += "[]"
 		return p
 	case *ssa.Slice:
-		return c.pathOfD(x.X, d+1)
+		p := c.pathOfD(x.X, d+1)
+		if x.High != nil {
+			if _, isArr := x.X.Type().Underlying().(*types.Pointer); !isArr {
+				p.Suffix += "[:h]" // re-sliced with an upper bound: may expose spare capacity to append
+			}
+		}
+		return p
 	case *ssa.UnOp:
 		if x.Op == token.MUL {
 			// load: for a local variable holding a pointer/slice, follow the unique store
@@ -173,8 +179,9 @@ func (c *Ctx) abs(f *ssa.Function, rel string) string {
 type EffKind int
 
 const (
-	EffWrite EffKind = iota
-	EffWipe          // overwritten with zeroes by a wipe primitive
+	EffWrite  EffKind = iota
+	EffWipe           // overwritten with zeroes by a wipe primitive
+	EffAppend         // base of a builtin append: written in place when it has spare capacity
 )
 
 type Effect struct {
@@ -246,8 +253,20 @@ func NewEffects(c *Ctx) *Effects {
 
 func (e *Effects) Of(f *ssa.Function) []Effect { return e.sum[f] }
 
-// InstrEffects: the effects of one instruction, in the enclosing function's terms.
+// InstrEffects: the write/wipe effects of one instruction, in the enclosing function's terms
+// (append bases, which are written only when they have spare capacity, are left out).
 func (e *Effects) InstrEffects(in ssa.Instruction) []Effect {
+	var out []Effect
+	for _, ef := range e.InstrEffectsAll(in) {
+		if ef.Kind != EffAppend {
+			out = append(out, ef)
+		}
+	}
+	return out
+}
+
+// InstrEffectsAll: including append bases.
+func (e *Effects) InstrEffectsAll(in ssa.Instruction) []Effect {
 	c := e.c
 	var out []Effect
 	add := func(k EffKind, p APath) {
@@ -277,6 +296,9 @@ func (e *Effects) InstrEffects(in ssa.Instruction) []Effect {
 				p := c.pathOf(cc.Args[0])
 				p.Suffix += "[]"
 				add(EffWrite, p)
+			}
+			if b.Name() == "append" && len(cc.Args) > 0 {
+				add(EffAppend, c.pathOf(cc.Args[0]))
 			}
 			if b.Name() == "clear" && len(cc.Args) > 0 {
 				p := c.pathOf(cc.Args[0])
@@ -354,7 +376,7 @@ func (e *Effects) compute(f *ssa.Function) []Effect {
 	var out []Effect
 	for _, b := range f.Blocks {
 		for _, in := range b.Instrs {
-			for _, ef := range e.InstrEffects(in) {
+			for _, ef := range e.InstrEffectsAll(in) {
 				k := fmt.Sprintf("%d|%s", ef.Kind, ef.Path)
 				if seen[k] {
 					continue
